@@ -184,7 +184,8 @@ class Run:
         m = re.search(r"Error: Invariant (\S+) is violated", out)
         if m:
             r.violated = m.group(1)
-        m2 = re.search(r"Error: Action property (\S+) is violated", out)
+        m2 = re.search(r"Error: Action property (\S+) is violated", out) or \
+            re.search(r"Action property (line \d+[^\n]*?) is violated", out)
         if m2:
             r.violated = m2.group(1)
         if "Temporal properties were violated" in out or re.search(r"Temporal propert\w+ .*violated", out):
